@@ -34,9 +34,37 @@ pub mod c06 {
 pub mod c04 {
     include!(concat!(env!("ETHERCRAB_VERIF_DIR"), "/c04.rs"));
 }
+#[cfg(kani)]
+pub mod c10 {
+    include!(concat!(env!("ETHERCRAB_VERIF_DIR"), "/c10.rs"));
+}
+#[cfg(kani)]
+pub mod c07 {
+    include!(concat!(env!("ETHERCRAB_VERIF_DIR"), "/c07.rs"));
+}
+#[cfg(kani)]
+pub mod c12 {
+    include!(concat!(env!("ETHERCRAB_VERIF_DIR"), "/c12.rs"));
+}
+#[cfg(kani)]
+pub mod c14 {
+    include!(concat!(env!("ETHERCRAB_VERIF_DIR"), "/c14.rs"));
+}
+#[cfg(kani)]
+pub mod c20 {
+    include!(concat!(env!("ETHERCRAB_VERIF_DIR"), "/c20.rs"));
+}
 #[cfg(all(kani, ethercrab_verif_h1))]
 pub mod c11 {
     include!(concat!(env!("ETHERCRAB_VERIF_DIR"), "/c11.rs"));
+}
+#[cfg(all(kani, ethercrab_verif_h1))]
+pub mod c16 {
+    include!(concat!(env!("ETHERCRAB_VERIF_DIR"), "/c16.rs"));
+}
+#[cfg(all(kani, ethercrab_verif_yield = "on"))]
+pub mod cwin {
+    include!(concat!(env!("ETHERCRAB_VERIF_DIR"), "/cwin.rs"));
 }
 #[cfg(all(kani, test))]
 mod playback_current {
